@@ -192,10 +192,9 @@ func generateOutput(nodeSet [][]*Node, query parser.Query) [][]interface{} {
 				if outputFormat.Type == "variable" {
 					outputFormat.SelectEntity += ".toString()"
 				}
-				response, err := evaluateExpression(nodeSet, outputFormat.SelectEntity, query)
-				if err != nil {
-					log.Fatal(err)
-				}
+				// a SELECT item that cannot be evaluated has been reported by
+				// evaluateExpression; its column stays empty
+				response, _ := evaluateExpression(nodeSet, outputFormat.SelectEntity, query)
 				result = append(result, response)
 			}
 		}
